@@ -646,9 +646,14 @@ pub fn check(pid: &str, seed: u64) -> Value {
         let q_acs = [0.0008f32, 0.0007, 0.0006, 0.0005, 0.0004, 0.0004, 0.0004, 0.0004, 0.0005, 0.0006, 0.0007, 0.0008];
         let aux_hp = |m: usize| -> String { format!("1,CONSUMO,CAL,ELECTRICIDAD,{}\n1,CONSUMO,ACS,ELECTRICIDAD,{}\n1,SALIDA,CAL,{}\n1,SALIDA,ACS,{}\n1,AUX,{}\n2,PRODUCCION,EL_INSITU,{}",
             months(&hp_el.map(|v| v * 0.2), m), months(&[4.0; 12], m), months(&q_cal, m), months(&q_acs, m), months(&[3.0; 12], m), months(&pv.map(|v| v * 0.5), m)) };
+        // a micro-cogeneration unit (0.3-0.5 kWh of electricity a month, below 1 Wh an hour) next to PV, most of the electricity exported
+        let mchp = [0.5f32, 0.5, 0.4, 0.3, 0.3, 0.3, 0.3, 0.3, 0.3, 0.4, 0.5, 0.5];
+        let micro = |m: usize| -> String { format!("1,CONSUMO,COGEN,GASNATURAL,{}\n1,PRODUCCION,EL_COGEN,{}\n2,CONSUMO,ILU,ELECTRICIDAD,{}\n3,PRODUCCION,EL_INSITU,{}\n4,CONSUMO,CAL,GASNATURAL,{}",
+            months(&mchp.map(|v| v * 3.0), m), months(&mchp, m), months(&[0.2; 12], m), months(&[2.0, 3.0, 4.0, 5.0, 6.0, 7.0, 7.0, 6.0, 5.0, 4.0, 3.0, 2.0], m), months(&[50.0; 12], m)) };
         for lm in [false, true] {
             leaf::reset_noise();
-            for (name, base, var) in [("12 months, each split in 2, heat pump with outputs of a few Wh a month and auxiliaries", aux_hp(1), aux_hp(2)), ("12 months, each split in 8, heat pump with outputs of a few Wh a month and auxiliaries", aux_hp(1), aux_hp(8)),
+            for (name, base, var) in [("12 months, each split in 730 (8760 hourly steps), micro-cogeneration below 1 Wh an hour next to PV", micro(1), micro(730)),
+                                      ("12 months, each split in 2, heat pump with outputs of a few Wh a month and auxiliaries", aux_hp(1), aux_hp(2)), ("12 months, each split in 8, heat pump with outputs of a few Wh a month and auxiliaries", aux_hp(1), aux_hp(8)),
                                       ("12 months, each split in 128 (1536 steps), gas cogeneration exporting electricity", cogen(1), cogen(128)), ("12 months, each split in 730 (8760 hourly steps), PV surplus of less than 1 Wh an hour", small_surplus(1), small_surplus(730)), ("12 months, each split in 730 (8760 hourly steps), small solar thermal use", monthly(1), monthly(730)), ("365 daily steps, each split in 24 (8760 hourly steps)", build(365, 1.0, 0, 1), build(8760, 1.0 / 24.0, 0, 24)), ("30 steps rotated by 7", build(30, 1.0, 0, 1), build(30, 1.0, 7, 1)), ("13 steps, each split in 4", build(13, 1.0, 0, 1), build(52, 0.25, 0, 4)), ("13 steps, each split in 3", build(13, 1.0, 0, 1), build(39, 1.0 / 3.0, 0, 3))] {
                 evals += 2;
                 leaf::reset_noise();
